@@ -22,6 +22,7 @@ import (
 	"sort"
 	"strconv"
 	"strings"
+	"sync"
 	"time"
 
 	"verifharness/drv"
@@ -190,23 +191,49 @@ func runCase(input string) string {
 	}
 }
 
-var bigCount = regexp.MustCompile(`[0-9]{6,}`)
+// shootRe: `name ( count` of a step reference (config.ParseShootName)
+var shootRe = regexp.MustCompile(`^\s*([^()]*?)\s*\(\s*([+-]?[0-9]+)`)
 
-// tooLarge: the ammo list of the description would have millions of entries (a weight or a step multiplier of six or
-// more digits; 20-digit numbers overflow strconv.Atoi and are refused, which is cheap): not run
+func gcd64(a, b int64) int64 {
+	for b != 0 {
+		a, b = b, a%b
+	}
+	return a
+}
+
+// tooLarge: the ammo list of the description would have more than 10^5 entries (config.SpreadNames repeats every
+// scenario weight/gcd(weights) times) or a step multiplier of six or more digits (20-digit numbers overflow
+// strconv.Atoi and are refused, which is cheap; the argument of the pseudo step `sleep` is a duration): not run
 func tooLarge(d *Node) bool {
 	scs := d.get("scenario")
 	if scs == nil {
 		return false
 	}
-	for _, sc := range scs.L {
-		if w := sc.get("weight"); w != nil && w.K == 'i' && w.I > 100000 {
-			return true
+	if len(scs.L) > 1 {
+		var ws []int64
+		var g int64
+		for _, sc := range scs.L {
+			w := int64(1)
+			if x := sc.get("weight"); x != nil && x.K == 'i' && x.I > 0 {
+				w = x.I
+			}
+			ws = append(ws, w)
+			g = gcd64(g, w)
 		}
+		total := int64(0)
+		for _, w := range ws {
+			total += w / g
+			if total > 100000 || total < 0 {
+				return true
+			}
+		}
+	}
+	for _, sc := range scs.L {
 		if rs := sc.get("requests"); rs != nil {
 			for _, x := range rs.L {
-				for _, run := range bigCount.FindAllString(x.S, -1) {
-					if len(run) <= 19 {
+				if m := shootRe.FindStringSubmatch(x.S); m != nil && m[1] != "sleep" {
+					n := strings.TrimLeft(m[2], "+-")
+					if len(n) >= 6 && len(n) <= 19 {
 						return true
 					}
 				}
@@ -214,6 +241,52 @@ func tooLarge(d *Node) bool {
 		}
 	}
 	return false
+}
+
+// fileNames: the names the two renderings are stored under (tokens hn / yn, hex; default ammo.hcl / ammo.yaml)
+func fileNames(m map[string]string) (string, string, bool) {
+	hn, yn := "ammo.hcl", "ammo.yaml"
+	for _, t := range []struct {
+		k string
+		p *string
+	}{{"hn", &hn}, {"yn", &yn}} {
+		if h, ok := m[t.k]; ok {
+			b, err := hex.DecodeString(h)
+			if err != nil || len(b) == 0 || strings.ContainsAny(string(b), "/\x00") {
+				return "", "", false
+			}
+			*t.p = string(b)
+		}
+	}
+	return hn, yn, true
+}
+
+// companion: another valid description, printed through locals that carry the SAME names as the printer gives the
+// locals of the main file (one of 16, rendered once per process) — the front-ends must decode every file on its own,
+// whatever was decoded before it (EVERY case first stores a companion under the very paths of its two files, reads
+// both, then overwrites them: a failing input replays on its own) or is being decoded at the same time (co=par: three
+// goroutines decode companions under the same base names while the main files are read and the providers built)
+var (
+	companions    [16][2]string
+	companionOnce [16]sync.Once
+)
+
+func companion(sx int64, i int) (string, string) {
+	k := int((uint64(sx) + uint64(i)*5) % 16)
+	companionOnce[k].Do(func() {
+		g := &gen{r: rand.New(rand.NewSource(int64(0x5eed0000 + k)))}
+		var d *Node
+		for {
+			d = g.describe()
+			if !tooLarge(d) {
+				break
+			}
+		}
+		h := printHCL(d, rand.New(rand.NewSource(int64(2+7*k))), 60)
+		y, _ := printYAML(d, rand.New(rand.NewSource(int64(3+7*k))), 30)
+		companions[k] = [2]string{h.text, y}
+	})
+	return companions[k][0], companions[k][1]
 }
 
 func runCase1(input string) string {
@@ -250,14 +323,53 @@ func runCase1(input string) string {
 	}
 	yamlText, _ := printYAML(d, rand.New(rand.NewSource(sx+1)), fancy)
 	dir := caseDir(input)
-	hp, yp := dir+"/ammo.hcl", dir+"/ammo.yaml"
-	if err := afero.WriteFile(memfs, hp, []byte(hclText), 0o644); err != nil {
-		panic(err)
+	hname, yname, ok := fileNames(m)
+	if !ok {
+		return "BADINPUT file name"
 	}
-	if err := afero.WriteFile(memfs, yp, []byte(yamlText), 0o644); err != nil {
-		panic(err)
-	}
+	hp, yp := dir+"/"+hname, dir+"/"+yname
 	defer func() { _ = memfs.RemoveAll(dir) }()
+	write := func(path, text string) {
+		if err := afero.WriteFile(memfs, path, []byte(text), 0o644); err != nil {
+			panic(err)
+		}
+	}
+	co := m["co"]
+	{
+		// the same two paths held another description a moment ago
+		ch, cy := companion(sx, 0)
+		write(hp, ch)
+		write(yp, cy)
+		_, _ = config.ReadAmmoConfig(memfs, hp)
+		_, _ = config.ReadAmmoConfig(memfs, yp)
+	}
+	write(hp, hclText)
+	write(yp, yamlText)
+	if co == "par" {
+		stop := make(chan struct{})
+		var wg sync.WaitGroup
+		for i := 1; i <= 3; i++ {
+			ch, cy := companion(sx, i)
+			chp, cyp := fmt.Sprintf("%s/co%d/%s", dir, i, hname), fmt.Sprintf("%s/co%d/%s", dir, i, yname)
+			write(chp, ch)
+			write(cyp, cy)
+			wg.Add(1)
+			go func() {
+				defer wg.Done()
+				defer func() { _ = recover() }()
+				for n := 0; n < 2000; n++ {
+					select {
+					case <-stop:
+						return
+					default:
+					}
+					_, _ = config.ReadAmmoConfig(memfs, chp)
+					_, _ = config.ReadAmmoConfig(memfs, cyp)
+				}
+			}()
+		}
+		defer func() { close(stop); wg.Wait() }()
+	}
 
 	if pre := m["pre"]; identRe.MatchString(pre) {
 		// another, valid, file that defines the local `pre` is parsed first: nothing of it may be visible afterwards
@@ -326,6 +438,8 @@ func class(input, obs string) string {
 	sx, _ := strconv.ParseInt(m["sx"], 10, 64)
 	if m["mal"] == "3" {
 		parts = append(parts, "broken-"+m["bk"])
+	} else if m["mal"] == "4" {
+		parts = append(parts, m["bk"])
 	} else if m["fm"] != "" {
 		parts = append(parts, "function-matrix")
 	} else if m["hx"] == "1" {
@@ -350,6 +464,15 @@ func class(input, obs string) string {
 		parts = append(parts, "malformed")
 	case "2":
 		parts = append(parts, "odd-steps")
+	}
+	if m["hn"] != "" {
+		parts = append(parts, "file-name")
+	}
+	if m["co"] != "" {
+		parts = append(parts, "companion-"+m["co"])
+	}
+	if m["nb"] != "" {
+		parts = append(parts, "numeric-boundary")
 	}
 	if strings.Contains(obs, " A=ERR") {
 		parts = append(parts, "ammo-refused")
@@ -444,7 +567,39 @@ func (g *gen) str(base []string) string {
 }
 
 // str0: a string for a free-text field; base = realistic values of that field
+// long: a string around the widths at which yaml.v2 folds scalars (80) and beyond, with single / double / leading /
+// trailing spaces and the characters that decide how it is quoted
+func (g *gen) long() string {
+	n := g.pick2([]int{70, 78, 79, 80, 81, 82, 100, 127, 128, 129, 160, 300, 1000, 4000})
+	words := []string{"lorem", "ipsum", "a", "x:", "#c", "'q'", "\"d\"", "{{.request.a.b}}", "k=v", "-", "é", "日本", "0", "true", "%{x}", "$${y}"}
+	var b strings.Builder
+	if g.chance(15) {
+		b.WriteString(" ")
+	}
+	for b.Len() < n {
+		b.WriteString(g.pick(words))
+		switch g.r.Intn(12) {
+		case 0:
+			b.WriteString("  ")
+		case 1:
+			b.WriteString("")
+		case 2:
+			b.WriteString("\n")
+		default:
+			b.WriteString(" ")
+		}
+	}
+	out := b.String()
+	if g.chance(70) {
+		out = strings.TrimRight(out, " \n")
+	}
+	return out
+}
+
 func (g *gen) str0(base []string) string {
+	if g.r.Intn(100) < 3 {
+		return g.long()
+	}
 	switch x := g.r.Intn(100); {
 	case x < 42:
 		return g.pick(base)
@@ -656,6 +811,86 @@ func (g *gen) scenario(name string, steps []string) *Node {
 	return nMap(append(m[:1], g.shuffle(m[1:])...))
 }
 
+// int boundaries: around the widths a "simplified" field type would cut at (int8 … int64, float64's 2^53), and the
+// largest waiting time / sleep that `time.Millisecond * time.Duration(x)` still holds
+var (
+	bigInts = []int64{127, 128, 255, 256, 32767, 32768, 65535, 65536, 1<<31 - 1, 1 << 31, 1<<32 - 1, 1 << 32, 1<<53 - 1, 1 << 53, 1<<53 + 1,
+		9223372036854, 9223372036855, 1 << 62, 1<<63 - 1}
+	negInts = []int64{-1, -128, -129, -32769, -1 << 31, -1<<31 - 1, -9223372036854, -9223372036855, -1 << 63}
+)
+
+func (g *gen) bigInt(neg bool) int64 {
+	if neg && g.chance(30) {
+		return negInts[g.r.Intn(len(negInts))]
+	}
+	return bigInts[g.r.Intn(len(bigInts))]
+}
+
+// boundaries: numbers at the edges in every integer field of the description; weights keep the ammo list small (one
+// scenario, or all weights multiples 1–3 of one large base)
+func (g *gen) boundaries(d *Node) {
+	set := func(n *Node, k string, v *Node) {
+		for i := range n.M {
+			if n.M[i].K == k {
+				n.M[i].V = v
+				return
+			}
+		}
+		n.M = append(n.M, KV{k, v})
+	}
+	if scs := d.get("scenario"); scs != nil {
+		base := g.bigInt(false)
+		for _, sc := range scs.L {
+			if g.chance(60) {
+				k := int64(1 + g.r.Intn(3))
+				if base > (1<<63-1)/k {
+					k = 1
+				}
+				set(sc, "weight", nInt(base*k))
+			} else if len(scs.L) > 1 {
+				set(sc, "weight", nInt(base))
+			}
+			if g.chance(70) {
+				set(sc, "min_waiting_time", nInt(g.bigInt(true)))
+			}
+			if rs := sc.get("requests"); rs != nil && len(rs.L) > 0 && g.chance(50) {
+				// a large sleep after the first step, and a large second argument
+				first := rs.L[0].S
+				if m := shootRe.FindStringSubmatch(first); m != nil {
+					first = m[1]
+				}
+				first = strings.TrimSpace(first)
+				if first != "" && first != "sleep" && !strings.ContainsAny(first, "()") {
+					extra := []*Node{nStr(fmt.Sprintf("sleep(%d)", g.bigInt(true))), nStr(fmt.Sprintf("%s(1, %d)", first, g.bigInt(true))),
+						nStr(fmt.Sprintf("sleep(%d)", g.bigInt(false)))}
+					rs.L = append(rs.L[:1], append(extra[:1+g.r.Intn(3)], rs.L[1:]...)...)
+				}
+			}
+		}
+	}
+	walkPost := func(steps *Node) {
+		if steps == nil {
+			return
+		}
+		for _, st := range steps.L {
+			if pp := st.get("postprocessor"); pp != nil {
+				for _, p := range pp.L {
+					if t := p.get("type"); t != nil && t.S == "assert/response" {
+						if g.chance(70) {
+							set(p, "status_code", nInt(g.bigInt(true)))
+						}
+						if sz := p.get("size"); sz != nil && sz.K == 'm' && g.chance(70) {
+							set(sz, "val", nInt(g.bigInt(false)))
+						}
+					}
+				}
+			}
+		}
+	}
+	walkPost(d.get("request"))
+	walkPost(d.get("call"))
+}
+
 // describe: one mostly-valid description
 func (g *gen) describe() *Node {
 	grpc := g.chance(40)
@@ -852,7 +1087,7 @@ func (g *gen) oddSteps(d *Node) {
 	set(sc, "requests", nStrs(cur))
 }
 
-func line(sx int64, mal int, d *Node) string {
+func line(sx int64, mal int, d *Node, extra ...string) string {
 	fancy := 0
 	switch sx % 3 {
 	case 1:
@@ -861,7 +1096,26 @@ func line(sx int64, mal int, d *Node) string {
 		fancy = 60
 	}
 	hf := printHCL(d, rand.New(rand.NewSource(sx)), fancy)
-	return fmt.Sprintf("sx=%d mal=%d d=%s lb=%s hb=%s", sx, mal, encodeTree(d), hf.lb, hf.hb)
+	x := ""
+	for _, e := range extra {
+		if e != "" {
+			x += " " + e
+		}
+	}
+	return fmt.Sprintf("sx=%d mal=%d%s d=%s lb=%s hb=%s", sx, mal, x, encodeTree(d), hf.lb, hf.hb)
+}
+
+// namePairs: the names the two renderings of one description are stored under — one base name, the extensions in the
+// same style: upper / mixed case, further dots and extensions in front, hidden files, unicode, spaces
+var namePairs = [][2]string{
+	{"AMMO.HCL", "AMMO.YAML"}, {"Ammo.Hcl", "Ammo.Yaml"}, {"ammo.hCL", "ammo.yAML"}, {"a.yaml.hcl", "a.hcl.yaml"}, {"a.yml.hcl", "a.yml.yaml"},
+	{".hcl", ".yaml"}, {".yml.hcl", ".yml.yaml"}, {"payload.v2.hcl", "payload.v2.yaml"}, {"данные.hcl", "данные.yaml"}, {"my ammo.hcl", "my ammo.yaml"},
+	{"hcl.yaml.HCL", "hcl.yaml.YAML"}, {"x..hcl", "x..yaml"}, {"UPPER.hcl", "UPPER.yaml"}, {"payload.json.hcl", "payload.json.yaml"},
+}
+
+func nameTokens(r *rand.Rand) string {
+	p := namePairs[r.Intn(len(namePairs))]
+	return "hn=" + hex.EncodeToString([]byte(p[0])) + " yn=" + hex.EncodeToString([]byte(p[1]))
 }
 
 func generate(r *rand.Rand, tier string) []string {
@@ -874,6 +1128,7 @@ func generate(r *rand.Rand, tier string) []string {
 	for i := 0; i < n; i++ {
 		d := g.describe()
 		mal := 0
+		nb, names, co := "", "", ""
 		switch x := g.r.Intn(100); {
 		case x < 8:
 			mal = 1
@@ -881,8 +1136,17 @@ func generate(r *rand.Rand, tier string) []string {
 		case x < 20:
 			mal = 2
 			g.oddSteps(d)
+		case x < 28:
+			nb = "nb=1"
+			g.boundaries(d)
 		}
-		out = append(out, line(r.Int63n(1<<40), mal, d))
+		if g.chance(12) {
+			names = nameTokens(g.r)
+		}
+		if g.chance(8) {
+			co = "co=par"
+		}
+		out = append(out, line(r.Int63n(1<<40), mal, d, nb, names, co))
 	}
 	// exhaustive small enumerations: all of them in the thorough tier, a random sample in the quick tier
 	k := 150
@@ -905,24 +1169,45 @@ func generate(r *rand.Rand, tier string) []string {
 			out = append(out, l)
 		}
 	}
+	// files with a `locals` block the format does not admit (a label after the keyword): hcl drops such a block with an
+	// error; the file must be refused as a whole
+	nl := 60
+	if tier == "thorough" {
+		nl = 1200
+	}
+	for i := 0; i < nl; i++ {
+		if l := labelledLine(r, r.Int63n(1<<40), g.describe()); l != "" {
+			out = append(out, l)
+		}
+	}
+	// every pair of file names once
+	for _, p := range namePairs {
+		out = append(out, line(r.Int63n(1<<40), 0, g.describe(), "hn="+hex.EncodeToString([]byte(p[0]))+" yn="+hex.EncodeToString([]byte(p[1]))))
+	}
 	return out
 }
 
 func main() {
+	if os.Getenv("C16_CHILD") != "" {
+		childMain()
+		return
+	}
 	setup()
+	defer closePool()
 	workers := 8
 	for i, a := range os.Args {
 		if (a == "-tier" || a == "--tier") && i+1 < len(os.Args) && os.Args[i+1] == "thorough" {
 			workers = 14
 		}
 	}
+	poolSize = workers
 	drv.Main(&drv.Prop{
 		ID:      "C16",
 		Gen:     generate,
-		Run:     runCase,
+		Run:     runViaChild,
 		Class:   class,
 		Workers: workers,
-		Timeout: hardLimit + 30*time.Second,
+		Timeout: hardLimit + 40*time.Second,
 		Rule: "random scenario descriptions (http requests or grpc calls, all registered variable sources / processors / templaters, 1-3 scenarios " +
 			"with weights, min_waiting_time, multipliers and sleeps; optional fields present, absent or present-and-zero; strings drawn from realistic " +
 			"values, YAML-1.1-special words, unicode incl. line separators/BOM, whitespace/newline shapes, HCL template characters) are printed by the " +
@@ -931,6 +1216,12 @@ func main() {
 			"providers, and the canonical dumps compared; the HCL spelling redefines locals in earlier / later blocks (the last definition before the " +
 			"use must win) and its syntax tree is evaluated by the Lean model; 8% are malformed (unknown plugin type, key of another plugin, bad " +
 			"assert op, unknown step) and must be refused by both front-ends; 12% have odd step references / weights (brackets, signs, sleeps, " +
-			"duplicates, negative weight) whose outcome the Lean ammo model predicts; a case is non-trivial when it has at least one request or call",
+			"duplicates, negative weight) whose outcome the Lean ammo model predicts; 8% carry numbers at the int8…int64 / 2^53 / duration edges in " +
+			"every integer field (weights kept proportional); 12% are stored under other file names (upper / mixed case extensions, further " +
+			"extensions and dots in front, hidden files, unicode); EVERY case is decoded after another description was read from the same two " +
+			"paths, 8% while three goroutines decode other files with the same base names; every case runs in a child process (a crash of " +
+			"the Go runtime is the observation PANIC of that case); files with a `locals` block carrying a label must be " +
+			"refused as a whole; strings include 70–4000 character texts around yaml.v2's folding width; a case is non-trivial when it has at " +
+			"least one request or call",
 	})
 }
